@@ -596,8 +596,8 @@ def analyse_case(case, houts, focus):
                         ok = valid_seen.get(k) is False
                     elif reason == 3:
                         ok = inp in sh.changed and k in sh.uptodate and sh.changed[inp] > sh.uptodate[k]
-                        if ok and not any(d == inp and not oo for d, oo, su in sh.deps.get(k, [])):
-                            fails.append({"what": "rule %d re-run because of input %d, which it only recorded as an order-only (must-follow) dependency or not at all: %s" % (k, inp, sh.deps.get(k)),
+                        if ok and not any(d == inp and not oo and not su for d, oo, su in sh.deps.get(k, [])):
+                            fails.append({"what": "rule %d re-run because of input %d, which it only recorded as an order-only (must-follow) or SINGLE-USE dependency or not at all: %s" % (k, inp, sh.deps.get(k)),
                                           "kind": "false-reason", "reason": 3, "order_only": True, "input": where})
                     else:
                         ok = False
